@@ -310,6 +310,8 @@ class Analyzer:
             self._schema(enc, r)
         if "complete" in self.want:
             self._complete(enc, r)
+        if "store" in self.want:
+            self._store(enc, r)
         r.solver_seconds = sum(v.seconds for v in V)
         # replay counterexamples
         for v in V:
@@ -424,6 +426,53 @@ class Analyzer:
             r.inconclusive.append((v.name, v.detail + " (the invariant may be too weak for this program)"))
         shutil.rmtree(wd, ignore_errors=True)
 
+    def _store(self, enc, r):
+        """C06: which (container type, bank) pairs are requested, with which idiom, and what happens when
+        a collection is absent (present/status symbolic per store key)."""
+        V = r.verdicts
+        want_keys = set(enc.ref.requests)
+        got = [(ct, bank, idiom) for _, ct, bank, idiom in enc.exec.requests]
+        got_keys = {(ct, bank) for ct, bank, _ in got}
+        idiom = {"atlas": "retrieve", "cms_aod": "getByLabel", "cms_miniaod": "getByToken"}[enc.pkg.backend]
+        problems = []
+        if got_keys != want_keys:
+            problems.append(f"store requests {sorted(got_keys)} != collections the query names {sorted(want_keys)}")
+        bad_idiom = sorted({i for _, _, i in got if i != idiom})
+        if bad_idiom:
+            problems.append(f"retrieval idiom {bad_idiom} instead of {idiom}")
+        if enc.pkg.backend == "cms_miniaod":
+            # one token per use, declared once, initialised once with that bank's tag
+            tokens = [n for t, n in enc.class_decl if t.startswith("edm::EDGetTokenT<")]
+            assigned = [st[1][1] for st in _walk(enc.book_ast) if st[0] == "assign" and st[1][0] == "id" and st[1][1] in tokens]
+            if sorted(assigned) != sorted(tokens):
+                problems.append(f"tokens declared {tokens} but initialised {assigned}")
+            sites = sum(1 for st in _walk(enc.query_ast) if st[0] == "mem" and len(st) > 3 and st[3] == "getByToken")
+            if len(tokens) != sites:
+                problems.append(f"{sites} getByToken call sites but {len(tokens)} tokens")
+        if enc.pkg.backend == "atlas":
+            cm = enc.pkg.files.get("package_CMakeLists.txt", "")
+            for ct, bank in want_keys:
+                for spec in enc.dm.colls.values():
+                    if spec.container == ct:
+                        for lib in spec.libs:
+                            if lib not in cm:
+                                problems.append(f"link library {lib} for {ct} missing from package_CMakeLists.txt")
+        for ct, bank in want_keys:
+            for spec in enc.dm.colls.values():
+                if spec.container == ct:
+                    for h in spec.headers:
+                        if h not in enc.includes:
+                            problems.append(f"header {h} for {ct} not included")
+        v = Verdict("store_requests", "holds" if not problems else "cex", "; ".join(problems))
+        V.append(v)
+        # absent collections: symbolic `present` per key
+        base_np = enc.base(all_present=False)
+        V.append(discharge("absent_collection_never_dereferenced", base_np, enc.cpp_fault(SILENT), self.timeout_ms))
+        missing = [g for g, k in enc.ref.undef if k == "missing_collection" and not z3.is_false(g)]
+        if missing:
+            v2 = discharge("absent_collection_fails_loudly", base_np + [Or(*missing)], Not(enc.cpp_fault(LOUD)), self.timeout_ms)
+            V.append(v2)
+
     def _complete(self, enc, r):
         "C02 front-end facts (decided by the encoder front end, not by the solver)."
         import re as _re
@@ -492,7 +541,7 @@ class Analyzer:
         r.verdicts.append(v)
 
     def _confirm(self, prog, enc, v, r, patches):
-        if v.name in ("schema", "complete"):
+        if v.name in ("schema", "complete", "store_requests"):
             d = bundle_dir(self.prop, prog, v.name)
             write_bundle(d, prog, enc.pkg, {"obligation": v.name, "text": v.detail, "kind": "front-end fact (no event needed)"})
             r.violations.append({"obligation": v.name, "text": v.detail, "replay": str(d)})
@@ -519,6 +568,10 @@ class Analyzer:
             shutil.rmtree(wd, ignore_errors=True)
             return
         reproduced = rp["mismatch"] is True
+        if v.name.startswith("absent_"):
+            f = rp["cpp"]["fault"]
+            reproduced = f is None or f[0] not in LOUD
+            rp["text"] = f"a collection is absent from the event but the job {'did not fail' if f is None else 'failed with ' + str(f)} (store: {[(k['type'], k['bank'], k['present']) for k in rp['event']['store']]})"
         if v.name.startswith("init:"):
             # an uninitialised read is confirmed by the model + encoder agreement; values are garbage
             reproduced = True
